@@ -308,7 +308,8 @@ def shrink(prof: Profile, case: dict, want_sig: str, findings,
 # ---- replay ----------------------------------------------------------------------
 
 def write_replay(prof: Profile, case: dict, v: dict, digest: str,
-                 seed: int, trace: list | None) -> str:
+                 seed: int, trace: list | None,
+                 original: dict | None = None) -> str:
     os.makedirs(os.path.join(ROOT, 'replays'), exist_ok=True)
     sig = hashlib.sha1(signature(v).encode()).hexdigest()[:10]
     path = os.path.join(ROOT, 'replays', '%s-%s-%d.json' % (prof.id, sig,
@@ -316,6 +317,9 @@ def write_replay(prof: Profile, case: dict, v: dict, digest: str,
     doc = {'property': prof.id, 'signature': signature(v),
            'violation': _jsonable(v), 'digest': digest, 'case': case,
            'seed': seed, 'trace': trace}
+    if original is not None and original is not case:
+        # the case as generated, before shrinking (replay uses 'case')
+        doc['original_case'] = original
     with open(path, 'w') as fp:
         json.dump(doc, fp, indent=1, default=_default)
     return path
@@ -546,7 +550,7 @@ def _search(pid: str, args) -> int:
             return 2
         trace = readable_trace(res.get('trace') or [])
         replay_path = write_replay(prof, small, v2, res['digest'],
-                                   args.seed, trace)
+                                   args.seed, trace, violation['case'])
         # must reproduce in a fresh interpreter
         env = dict(os.environ)
         proc = subprocess.run(
